@@ -49,6 +49,7 @@ type c07Case struct {
 	Cfg   walCfg  `json:"cfg"`
 	Ops   []walOp `json:"ops"`
 	Crash bool    `json:"crash"` // also enumerate crash images
+	Cuts  bool    `json:"cuts,omitempty"` // also cut the newest file at byte lengths (every length, or around every record header for big files)
 	// observations
 	Files    []string `json:"files"`
 	Replayed [][]byte `json:"replayed"`
@@ -56,6 +57,8 @@ type c07Case struct {
 	Images   []imgObs `json:"images,omitempty"`
 	Unsynced []int    `json:"unsynced,omitempty"` // AppendSync ops that returned while written bytes were not fsynced
 	NEvents  int      `json:"n_events,omitempty"`
+	CutBad   string   `json:"cut_bad,omitempty"` // first byte-level cut of the newest file whose replay is not a prefix / fails
+	NCuts    int      `json:"n_cuts,omitempty"`
 	Fatal    string   `json:"fatal,omitempty"`
 }
 
@@ -183,6 +186,9 @@ func (c *c07Case) Exec() {
 	if err != nil {
 		c.ReplErr = classifyErr(err)
 	}
+	if c.Cuts && err == nil {
+		c.cutNewest(dir, wd, recs)
+	}
 	if !c.Crash {
 		return
 	}
@@ -287,9 +293,74 @@ func (c *c07Case) appended() ([][]byte, []bool) {
 	return recs, sync
 }
 
+// cutNewest: the newest WAL file cut at byte lengths - what a kill can leave when the record bytes reach the file in
+// arbitrary pieces; the replay must succeed and deliver a prefix of the full replay
+func (c *c07Case) cutNewest(dir, wd string, full [][]byte) {
+	c.CutBad, c.NCuts = "", 0
+	ents, _ := os.ReadDir(wd)
+	if len(ents) == 0 {
+		return
+	}
+	var names []string
+	for _, e := range ents {
+		names = append(names, e.Name())
+	}
+	sort.Strings(names)
+	newest := names[len(names)-1]
+	data, _ := os.ReadFile(filepath.Join(wd, newest))
+	cd := filepath.Join(dir, "cut")
+	must(copyTree(wd, cd))
+	var lens []int
+	if len(data) <= 600 {
+		for n := 0; n <= len(data); n++ {
+			lens = append(lens, n)
+		}
+	} else {
+		// around every occurrence of the record marker (all header bytes) and a sample of other positions
+		seen := map[int]bool{}
+		for i := 0; i+2 < len(data); i++ {
+			if data[i] == 0x91 && data[i+1] == 0x8d && data[i+2] == 0x4c {
+				for n := i - 2; n <= i+24; n++ {
+					if n >= 0 && n <= len(data) && !seen[n] {
+						seen[n] = true
+						lens = append(lens, n)
+					}
+				}
+			}
+		}
+		for n := 0; n <= len(data); n += 1 + len(data)/97 {
+			if !seen[n] {
+				lens = append(lens, n)
+			}
+		}
+	}
+	for _, n := range lens {
+		must(os.WriteFile(filepath.Join(cd, newest), data[:n], 0644))
+		got, err := replayDir(c.Cfg, cd)
+		c.NCuts++
+		if err != nil {
+			c.CutBad = fmt.Sprintf("newest file %s cut at %d of %d bytes: replay failed: %s", newest, n, len(data), classifyErr(err))
+			return
+		}
+		if len(got) > len(full) {
+			c.CutBad = fmt.Sprintf("newest file cut at %d bytes: more records than in the whole log", n)
+			return
+		}
+		for i := range got {
+			if !bytes.Equal(got[i], full[i]) {
+				c.CutBad = fmt.Sprintf("newest file cut at %d bytes: replayed record %d is not the appended one", n, i)
+				return
+			}
+		}
+	}
+}
+
 func (c *c07Case) Oracle() (bool, string) {
 	if c.Fatal != "" {
 		return false, c.Fatal
+	}
+	if c.CutBad != "" {
+		return false, c.CutBad
 	}
 	for i, o := range c.Ops {
 		if o.Err != "" {
@@ -394,6 +465,7 @@ func genC07(r *rand.Rand, tier string) []Case {
 	for i := 0; i < n; i++ {
 		c := &c07Case{Cfg: walCfg{MaxSize: []uint64{9, 30, 100, 1000, 1 << 20}[r.Intn(5)], Comp: []int{0, 0, 2}[r.Intn(3)], WBuf: []int{1, 16, 64, 4096, 4 << 20}[r.Intn(5)]}}
 		c.Crash = i < ncrash
+		c.Cuts = i%4 == 1
 		nops := 1 + r.Intn(40)
 		if c.Crash {
 			nops = 3 + r.Intn(10)
@@ -411,6 +483,11 @@ func genC07(r *rand.Rand, tier string) []Case {
 					op.Rec = []byte{}
 				case 1:
 					op.Rec = bytes.Repeat([]byte{byte(j)}, 100+r.Intn(200)) // larger than small limits and buffers
+					if c.Cuts && r.Intn(3) == 0 {
+						// a length whose varint has a bare continuation byte (0x80) in the middle
+						op.Rec = make([]byte, 16384+r.Intn(120))
+						r.Read(op.Rec)
+					}
 				default:
 					op.Rec = advPayload(r, 20)
 				}
